@@ -132,11 +132,13 @@ Ctx == [
   rejrew |-> << E("openBankData", [a |-> "b1"]), E("openData", [a |-> "s1"]), E("openData", [a |-> "sbadvlq"]), E("positionRewind", [nd |-> 0]) >>,
   looprew |-> << E("openBankData", [a |-> "b1"]), E("openData", [a |-> "s2"]), E("setLoopEnabled", [v |-> 1]), E("positionRewind", [nd |-> 0]) >>,
   locked |-> << E("openBankData", [a |-> "b1"]), E("openData", [a |-> "srsxx"]), E("rt_noteOn", [ch |-> 0, k |-> 64, v |-> 127]) >>,
+  \* ... and a chip count requested while it is locked: stored, not applied (everything that walks the chips must still see 2)
+  lockedn |-> << E("openBankData", [a |-> "b1"]), E("openData", [a |-> "srsxx"]), E("setNumChips", [n |-> 8]), E("rt_noteOn", [ch |-> 0, k |-> 64, v |-> 127]) >>,
   note  |-> << E("openBankData", [a |-> "b1"]), E("rt_noteOn", [ch |-> 0, k |-> 64, v |-> 127]), E("rt_noteOn", [ch |-> 9, k |-> 64, v |-> 127]),
                E("setVolumeRangeModel", [v |-> 3]) >> ]
 RECURSIVE Run(_, _)
 Run(St, evs) == IF evs = << >> THEN St ELSE Run(Spend(St, Head(evs)), Tail(evs))
-CtxNames == << "fresh", "bank", "song", "rej", "rejrew", "looprew", "locked", "note" >>
+CtxNames == << "fresh", "bank", "song", "rej", "rejrew", "looprew", "locked", "lockedn", "note" >>
 ChainMax == 1          \* calls per sweep history after the context prefix (1: no interference between the swept calls)
 \* the work list of one context, computed once (TLC does not memoise): its state, its prefix, the calls still to place
 SwOf(i) == LET c == CtxNames[i]  st0 == Run(New(44100), Ctx[c]) IN
